@@ -74,18 +74,8 @@ def is_effect(ctx, it, path, ev):
     return None
 
 
-def check(ctx, rep):
-    prog = ctx.prog
-    rep.rule("R-GATE", "every effect of a public submit* entry point (delegate interaction, base-class submit, user call, enqueue into executor state) happens with the executor's own ShutdownHelper lock held; when the flag is set the entry point raises RuntimeError('%s') before any effect" % MSG)
+def check_helper(ctx, rep, helper, lockfield):
     rep.rule("R-HELPER", "ShutdownHelper.__call__ tests and sets the flag under the helper's lock and returns True exactly for the call that set it; ensure_alive takes the same lock, raises the documented RuntimeError when the flag is set and yields with the lock held")
-    rep.rule("R-SHUT", "shutdown(): a call that did not flip the flag has no effect (no delegate shutdown, no join, no gauge change); the call that flipped it performs exactly one delegate/base-class shutdown with its own arguments forwarded unchanged, wakes the worker event, and joins the worker thread only under a true `wait` and after the wake-up")
-    rep.rule("R-LOOPTOP", "each iteration of a worker loop decides 'executor collected', 'executor shut down' and 'interpreter exiting' before any work (lock, call into the executor, user code) and leaves the loop if any holds")
-    rep.rule("R-LOOPWRAP", "every worker thread target is wrapped by executor_loop; executor_loop's handler catches RuntimeError only, returns only when the message contains 'cannot schedule new futures after' and re-raises otherwise")
-
-    helper, lockfield = helper_lock_field(ctx)
-    execs = [c for c in ctx.executor_classes() if ctx.gate_field(c)]
-    rep.count("executor classes with a shutdown gate", len(execs), 10)
-
     # ------------------------------------------------------------- R-HELPER
     call_fi = helper.methods.get("__call__")
     alive_fi = helper.methods.get("ensure_alive")
@@ -136,6 +126,23 @@ def check(ctx, rep):
             ok = len(ys) == 1 and br and br[0].d[1] is False and any(l[1] == ("attr", ("param", "self"), lockfield) for l in ys[0].locks) and any(l[1] == ("attr", ("param", "self"), lockfield) for l in br[0].locks)
             rep.ob("R-HELPER", key, ok, "ensure_alive must test the flag and yield exactly once, both under self.%s" % lockfield, where_of(alive_fi), trace_of(p))
     rep.require(saw_raise and saw_yield, "ShutdownHelper.ensure_alive: expected a raising and a yielding path")
+
+    return flag
+
+
+def check(ctx, rep):
+    prog = ctx.prog
+    rep.rule("R-GATE", "every effect of a public submit* entry point (delegate interaction, base-class submit, user call, enqueue into executor state) happens with the executor's own ShutdownHelper lock held; when the flag is set the entry point raises RuntimeError('%s') before any effect" % MSG)
+    rep.rule("R-HELPER", "ShutdownHelper.__call__ tests and sets the flag under the helper's lock and returns True exactly for the call that set it; ensure_alive takes the same lock, raises the documented RuntimeError when the flag is set and yields with the lock held")
+    rep.rule("R-SHUT", "shutdown(): a call that did not flip the flag has no effect (no delegate shutdown, no join, no gauge change); the call that flipped it performs exactly one delegate/base-class shutdown with its own arguments forwarded unchanged, wakes the worker event, and joins the worker thread only under a true `wait` and after the wake-up")
+    rep.rule("R-LOOPTOP", "each iteration of a worker loop decides 'executor collected', 'executor shut down' and 'interpreter exiting' before any work (lock, call into the executor, user code) and leaves the loop if any holds")
+    rep.rule("R-LOOPWRAP", "every worker thread target is wrapped by executor_loop; executor_loop's handler catches RuntimeError only, returns only when the message contains 'cannot schedule new futures after' and re-raises otherwise")
+
+    helper, lockfield = helper_lock_field(ctx)
+    execs = [c for c in ctx.executor_classes() if ctx.gate_field(c)]
+    rep.count("executor classes with a shutdown gate", len(execs), 10)
+
+    flag = check_helper(ctx, rep, helper, lockfield)
 
     # --------------------------------------------------------------- R-GATE
     n_entry = 0
